@@ -8,7 +8,7 @@ import PolyVerif.Props.C08MeshTex
 
 namespace PolyVerif
 namespace C08
-open Ply PlySpec PlyLemmas PlyCompose PlyHeader PlyAscii PlyFaces PlyFacesAscii PlyFacesTex PlyFacesTexAscii
+open Ply PlySpec PlyLemmas PlyCompose PlyHeader PlyAscii PlyFaces PlyFacesAscii PlyFacesTex PlyFacesTexAscii PlyUnweld
 
 variable {α : Type}
 
@@ -49,6 +49,25 @@ theorem ply_reads_spec_mesh_tex_ascii_bytes (c : Coding α) (L : GoFloatText c) 
     simp only [Option.isNone_some, Bool.false_eq_true, if_false, assemble, bind, Except.bind, pure, Except.pure, hcond,
       List.isEmpty_cons]
     rw [if_pos ⟨hpos, trivial⟩]
+
+/-- … and loads WITHOUT ERROR to the explicit per-corner mesh when every face lists existing vertices -/
+theorem ply_reads_spec_mesh_tex_ascii_loads (c : Coding α) (L : GoFloatText c) (Z : SpecIntText c) (f : SpecFile α)
+    (fe : SpecFaceElem α) (tt : SType × SType) (hok : SpecHeaderOK f) (hf : f.format = .ascii) (hprops : f.vprops ≠ [])
+    (hface : f.face = some fe) (htex : fe.tex = some tt)
+    (henc : ∀ fc ∈ fe.faces, FaceTexOK fe fc) (hsize : ∀ fc ∈ fe.faces, TriOrQuad fc)
+    (hvr : ∀ fc ∈ fe.faces, ∀ v ∈ fc.verts, v < f.verts.length)
+    (htyped : ∀ r ∈ f.verts, r.map Datum.ty = f.vprops.map (·.ty))
+    (hrange : ∀ r ∈ f.verts, ∀ d ∈ r, Datum.InRange c L Z d)
+    (bl : List (Built × List Nat))
+    (hbuilt : bl.map (·.1) = buildAll false (specProps f) defaultReaders true)
+    (hloc : ∀ p ∈ bl, LocatedA (f.vprops.map (·.ty)) p.1 p.2) :
+    readMesh c defaultReader (refEncode c f)
+      = .ok (let mesh := applyColumns ⟨.triangle, fanIdx fe.faces, [], none⟩ (bl.map (·.1)) (f.verts.map (rowOfS c L Z bl))
+             if fe.faces.isEmpty then mesh else (corners mesh).set 2 texCoordAttr (texUVA fe.faces)) := by
+  have hu := unweld_assembled (bl.map (·.1)) (f.verts.map (rowOfS c L Z bl)) fe.faces (by simpa using hvr)
+  rw [ply_reads_spec_mesh_tex_ascii_bytes c L Z f fe tt hok hf hprops hface htex henc hsize htyped hrange bl hbuilt hloc]
+  simp only [hu]
+  cases fe.faces.isEmpty <;> rfl
 
 /-- `TexCoord` of the ASCII theorem is `meaning`'s list of per-corner coordinates, verbatim -/
 theorem texUVA_is_meaning_uvs (faces : List (SpecFace α)) :
